@@ -225,8 +225,8 @@ def signature_diff(a, b):
 
 def _type_refines(a, b, name, is_input):
     """Declared type comparison: element type and rank must be kept; a declared dimension value must not change.
-    Outputs: a symbolic/unknown dimension may be refined.  Inputs: a dimension name must stay and no dimension may
-    become a fixed value (that would narrow the interface); an unknown dimension may get a name."""
+    A symbolic/unknown dimension may be refined (to a value or, when unknown, to a name); an input dimension name must
+    not be replaced by another name."""
     va = next(v for v in (a.graph.input if is_input else a.graph.output) if v.name == name)
     vb = next(v for v in (b.graph.input if is_input else b.graph.output) if v.name == name)
     ta, tb = va.type, vb.type
@@ -249,9 +249,9 @@ def _type_refines(a, b, name, is_input):
         if x.HasField("dim_value") and not (y.HasField("dim_value") and y.dim_value == x.dim_value):
             return False
         if is_input:
-            # an input dimension must not be narrowed: a symbolic name stays, an unknown dimension may get a name only
-            if x.HasField("dim_param") and not (y.HasField("dim_param") and y.dim_param == x.dim_param):
-                return False
-            if not x.HasField("dim_value") and y.HasField("dim_value"):
+            # a symbolic input dimension may be refined to the value that shape inference derives from the model's own
+            # constraints (feeds violating it fail in the original too: observed by the differential oracle), but it must
+            # not be renamed
+            if x.HasField("dim_param") and y.HasField("dim_param") and y.dim_param != x.dim_param:
                 return False
     return True
